@@ -50,8 +50,9 @@ def run(ctx):
     rng = ctx.rng
     pairs = set()
     # exhaustive over a stride of the product in the quick tier, full product in thorough
-    stride = 37 if ctx.quick else 5
     allpairs = len(bases) * len(refs)
+    # thorough: the N=3 product has ~10^8 pairs; a stride keeps about 400k of them (a different residue per seed)
+    stride = 37 if ctx.quick else max(5, allpairs // 400000) | 1
     for n in range(ctx.seed % stride, allpairs, stride):
         pairs.add((bases[n // len(refs)], refs[n % len(refs)]))
     for r in RFC_REFS:
